@@ -26,10 +26,36 @@ NSHARDS = 16
 
 def plan(tier, seed):
     n = 26 if tier == "quick" else 700
-    return [{"shard": i, "cases": n} for i in range(NSHARDS)]
+    return [{"shard": i, "cases": n} for i in range(NSHARDS)] + [{"shard": NSHARDS, "cases": 0, "suite": True}]
+
+
+def run_suite_shard(mon):
+    """the repository's own test suite (real-data workloads) under the reject-atomic monitor of vmon/suitemon.py"""
+    from .. import suiterun
+
+    events, info = suiterun.run_suite()
+    mon.note("suite", {"rc": info["rc"], "wall_s": info["wall"], "tail": info["tail"][-160:]})
+    n_tests = sum(1 for e in events if e.get("mon") == "test" and e.get("outcome") == "passed")
+    mon.hit("suite-tests-passed", n_tests)
+    for e in events:
+        if e.get("mon") != "reject-atomic":
+            continue
+        mon.case_id = {"suite_test": e.get("test")}
+        mon.ev()
+        mon.hit("suite-rejections")
+        mon.cls(f"suite-reject/{e['market']}/{e['op']}/{e['site']}")
+        mon.nt(f"suite/{e['market']}/{e['op']}/{e['site']}")
+        if not e["ok"]:
+            mon.violation(e["market"], e["op"], "state-changed-after-reject", e["site"],
+                          f"repository test {e.get('test')}: {e['market']}.{e['op']} raised {e.get('error')} but state changed: {e.get('diff')}",
+                          {"suite_test": e.get("test")})
 
 
 def run(spec, mon):
+    if spec.get("suite"):
+        if mon.only_case is None or isinstance(mon.only_case, dict):
+            run_suite_shard(mon)
+        return
     for c in range(spec["cases"]):
         rng = mon.case_rng(c)
         if not mon.want(c):
@@ -102,4 +128,6 @@ def floors(merged, tier):
     for mk in ("uniswap", "aave", "squeeth", "deribit", "gmx", "gmx2", "broker"):
         if seen.get(mk, 0) < 5:
             out.append(f"fewer than 5 rejections provoked on market {mk}")
+    if merged["reach"].get("suite-tests-passed", 0) < 100:
+        out.append(f"the repository's test suite under monitors passed only {merged['reach'].get('suite-tests-passed', 0)} tests (expected about 154)")
     return out
